@@ -114,7 +114,7 @@ def alpha(model):
     for m in model.modules():
         nh += len(m._forward_hooks) + len(m._forward_pre_hooks) + len(m._backward_hooks) + len(getattr(m, "_backward_pre_hooks", {}))
     sd = base.crc(b"".join(v.detach().cpu().numpy().tobytes() for v in model.state_dict().values()))
-    was = model.training
+    was = [m.training for m in model.modules()]
     model.eval()
     saved_t, saved_c = dict(TRIP), dict(COUNT)
     TRIP.clear()
@@ -128,8 +128,9 @@ def alpha(model):
         po, pg = -1, base.crc(type(e).__name__.encode())
     finally:
         TRIP.update(saved_t); COUNT.clear(); COUNT.update(saved_c)
-        model.train(was)
-    return dict(hooks=nh, sd=sd, po=po, pg=pg, training=bool(was))
+        for m, f in zip(model.modules(), was):
+            m.training = f
+    return dict(hooks=nh, sd=sd, po=po, pg=pg, training=bool(was[0]))
 
 
 def plan(func, crash):
@@ -242,7 +243,9 @@ def base_model():
     if BASE is None:
         torch.manual_seed(0)
         BASE = Net()
-        BASE.train()
+        BASE.eval()
+        BASE.bn.train()      # a root in eval mode with a sub-module still in training mode (e.g. a freshly attached head):
+        #                      every call must run the WHOLE model in eval mode, or BatchNorm's buffers change
     return copy.deepcopy(BASE)
 
 
